@@ -156,6 +156,7 @@ func (m *StateMachine) kernel(ctx context.Context) {
 		// Already logged, so just quit.
 		return
 	}
+	verifSMTrace(m, "Init", &rlc)
 
 	wSig := m.wd.Monitor(ctx, gwatchdog.MonitorConfig{
 		Name:     "StateMachine",
@@ -223,6 +224,7 @@ func (m *StateMachine) handleCatchupEvent(
 			if !m.handleFinalization(ctx, rlc, resp) {
 				return false
 			}
+			verifSMTrace(m, "CatchupFinalized", rlc)
 		}
 	}
 }
@@ -252,6 +254,7 @@ func (m *StateMachine) handleLiveEvent(
 
 	case v := <-m.viewInCh:
 		m.handleViewUpdate(ctx, rlc, v)
+		verifSMTrace(m, "ViewUpdate", rlc)
 
 	case p := <-rlc.ProposalCh:
 		if !m.recordProposedHeader(ctx, *rlc, p) {
@@ -259,6 +262,7 @@ func (m *StateMachine) handleLiveEvent(
 		}
 
 		rlc.ProposalCh = nil
+		verifSMTrace(m, "Proposal", rlc)
 
 	case he := <-rlc.PrevoteHashCh:
 		if he.Err != nil {
@@ -273,6 +277,7 @@ func (m *StateMachine) handleLiveEvent(
 		}
 
 		rlc.PrevoteHashCh = nil
+		verifSMTrace(m, "PrevoteChosen", rlc)
 
 	case he := <-rlc.PrecommitHashCh:
 		if he.Err != nil {
@@ -287,6 +292,7 @@ func (m *StateMachine) handleLiveEvent(
 		}
 
 		rlc.PrecommitHashCh = nil
+		verifSMTrace(m, "PrecommitChosen", rlc)
 
 	case resp := <-rlc.FinalizeRespCh:
 		if !m.handleFinalization(ctx, rlc, resp) {
@@ -297,21 +303,25 @@ func (m *StateMachine) handleLiveEvent(
 		// but it is actually conditionally changed in the m.handleFinalization call.
 		// If we set it to nil following a height change which may have happend in m.handleFinalization,
 		// the state machine will deadlock when the app attempts to send its finalization to a nil channel.
+		verifSMTrace(m, "Finalized", rlc)
 
 	case <-rlc.StepTimer:
 		if !m.handleTimerElapsed(ctx, rlc) {
 			return false
 		}
+		verifSMTrace(m, "TimerElapsed", rlc)
 
 	case <-rlc.HeightCommitted:
 		if !m.handleHeightCommitted(ctx, rlc) {
 			return false
 		}
+		verifSMTrace(m, "HeightCommitted", rlc)
 
 	case a := <-m.blockDataArrivalCh:
 		if !m.handleBlockDataArrival(ctx, rlc, a) {
 			return false
 		}
+		verifSMTrace(m, "BlockDataArrival", rlc)
 
 	case sig := <-wSig:
 		close(sig.Alive)
